@@ -45,37 +45,124 @@ def _jacobi(s, mu):
     return x * x + y * y + 2 * ((1 - mu) / r1 + mu / r2) - (vx * vx + vy * vy + vz * vz)
 
 
-def k_orbit(params):
-    from props.c05 import make_orbit
-    from props.c03 import ref_stm, _field_jac
-    from scipy.integrate import solve_ivp
+class _Ctx:
+    """reference data of one (corrected) periodic orbit in its *current* state, and the per-trajectory oracle"""
 
+    def __init__(self, mu, orbit):
+        from props.c03 import _field_jac
+        from scipy.integrate import solve_ivp
+
+        self.mu = mu
+        self.x0 = np.array(orbit.initial_state, dtype=float)
+        self.T = float(orbit.period)
+        f, jac = _field_jac(mu)
+        # dense reference orbit
+        self.dense = solve_ivp(lambda t, s: f(s), (0.0, self.T), self.x0, method="DOP853", rtol=1e-13, atol=1e-14, dense_output=True)
+        self.ts = np.linspace(0.0, self.T, 4001)
+        # the library's base points come from its own propagation of an orbit that closes only to ~1e-9 and whose errors grow with the unstable multiplier:
+        # a base-point mismatch m changes the measured angle by ~ m / displacement
+        self.mismatch = float(np.max(np.abs(self.dense.sol(self.T) - self.x0))) + 2e-9
+        self.curve = np.array([self.dense.sol(t) for t in self.ts])
+        self.ref_cache = {}
+        self.mx_angle = 0.0
+
+    def floquet(self, tq):
+        from props.c03 import ref_stm
+        T = self.T
+        key = round((tq % T) / T * 1e7)
+        if key not in self.ref_cache:
+            _, Mt = ref_stm(self.mu, self.dense.sol(tq % T), T)
+            w_, V_ = np.linalg.eig(Mt)
+            self.ref_cache[key] = (w_, V_)
+        return self.ref_cache[key]
+
+    def check_traj(self, tr, stable, disp, V, tag, energy_tol=1e-6):
+        """returns 1 if the seed direction was compared (non-trivial), else 0"""
+        from scipy.optimize import minimize_scalar
+        mu, T, dense, ts, curve, mismatch = self.mu, self.T, self.dense, self.ts, self.curve, self.mismatch
+        times = np.asarray(tr.times, dtype=float)
+        states = np.asarray(tr.states, dtype=float)
+        seed = states[0]
+        # time direction
+        if stable and (np.any(times > 1e-15) or np.any(np.diff(times) >= 0)):
+            V("times", "stable branch is not integrated backward (times %s ... %s) [%s]" % (times[:2].tolist(), times[-1:].tolist(), tag), times[:3])
+        if (not stable) and (np.any(times < -1e-15) or np.any(np.diff(times) <= 0)):
+            V("times", "unstable branch is not integrated forward (times %s ... %s) [%s]" % (times[:2].tolist(), times[-1:].tolist(), tag), times[:3])
+        # energy along the retained trajectory (reference Jacobi constant, every sample, both signs)
+        C = np.array([_jacobi(s_, mu) for s_ in states])
+        dC = float(np.max(np.abs(C - C[0])) / abs(C[0]))
+        if dC > energy_tol * (1 + 1e-6) + 1e-13:
+            k_ = int(np.argmax(np.abs(C - C[0])))
+            V("energy", "reference Jacobi constant deviates by %+.3e (relative) from its seed value along a retained trajectory, configured energy_tol %.1e [%s]" % (
+                float((C[k_] - C[0]) / abs(C[0])), energy_tol, tag), dC, energy_tol)
+        # base point.  The statement allows any point of the orbit as base, so the base is found by a 1-D search along the reference
+        # orbit: tau* minimises the angle between (seed - x(tau)) and the reference Floquet direction, starting from the closest point
+        # (moving the base along the orbit only changes the offset by a multiple of the flow direction).  Monodromies are cached per phase.
+        d2 = np.sum((curve - seed) ** 2, axis=1)
+        k = int(np.argmin(d2))
+        tau = float(ts[k])
+        ang = None
+        for _it in range(2):
+            w, Vv = self.floquet(tau)
+            real = [i for i in range(6) if abs(w[i].imag) < 1e-8 * max(1.0, abs(w[i]))]
+            cand = [i for i in real if (abs(w[i]) < 1 - 1e-3 if stable else abs(w[i]) > 1 + 1e-3)]
+            if not cand:
+                break
+            i_sel = min(cand, key=lambda i: abs(w[i])) if stable else max(cand, key=lambda i: abs(w[i]))
+            v = np.real(Vv[:, i_sel])
+            v = v / np.linalg.norm(v)
+
+            def angle_at(tq):
+                o_ = seed - dense.sol(tq % T)
+                return math.acos(min(1.0, abs(float(o_ @ v)) / max(float(np.linalg.norm(o_)), 1e-300)))
+            win = 2.5 * T / 1999.0
+            r = minimize_scalar(angle_at, bounds=(tau - win, tau + win), method="bounded", options={"xatol": 1e-12 * T})
+            tau = float(r.x)
+            ang = float(r.fun)
+        if ang is None:
+            return 0
+        base = dense.sol(tau % T)
+        off = seed - base
+        pn = float(np.linalg.norm(off[:3]))
+        if abs(pn - disp) > 2e-3 * disp + 3 * mismatch:
+            V("displacement", "seed is %.6e from its base point in position, configured displacement %.6e (phase tau/T=%.4f) [%s]" % (pn, disp, tau / T, tag), pn, disp)
+        u = off / np.linalg.norm(off)
+        self.mx_angle = max(self.mx_angle, ang)
+        if ang > 1e-3 + 5 * mismatch / disp:
+            # angle to the *other* hyperbolic direction, for the diagnosis
+            other = [i for i in real if (abs(w[i]) > 1 + 1e-3 if stable else abs(w[i]) < 1 - 1e-3)]
+            a2 = None
+            if other:
+                v2 = np.real(Vv[:, other[0]]); v2 = v2 / np.linalg.norm(v2)
+                a2 = math.acos(min(1.0, abs(float(u @ v2))))
+            V("direction", "seed offset is %.4f rad (%.1f deg) away from the true %s Floquet direction at its base point (phase %.4f, multiplier %.4g; angle to the other hyperbolic direction %s) [%s]" % (
+                ang, math.degrees(ang), "stable" if stable else "unstable", tau / T, abs(w[i_sel]), "%.4f" % a2 if a2 is not None else "n/a", tag), ang, 0.0)
+        return 1
+
+
+def _make(params):
+    from props.c05 import make_orbit
     sysn = params["system"]
     system = _L["System"].from_bodies(*sysn) if isinstance(sysn, list) else _L["System"].from_mu(sysn)
-    mu = float(system.mu)
     fam, Ln, amp = params["family"], params["point"], params["amp"]
     tag0 = "family=%s L%d system=%s amplitude=%g" % (fam, Ln, sysn, amp)
-    viol = {}
+    orbit = make_orbit(system, fam, Ln, amp)
+    return system, float(system.mu), orbit, tag0
+
+
+def k_orbit(params):
+    from scipy.optimize import minimize_scalar
     try:
-        orbit = make_orbit(system, fam, Ln, amp)
+        system, mu, orbit, tag0 = _make(params)
         orbit.correct()
         orbit.propagate(steps=1000)
     except Exception as exc:
-        return res(evals=1, nontrivial=0, sample={"tag": tag0, "outcome": "orbit rejected: %s" % type(exc).__name__})
-    x0 = np.array(orbit.initial_state, dtype=float)
-    T = float(orbit.period)
-    f, jac = _field_jac(mu)
-    # dense reference orbit
-    dense = solve_ivp(lambda t, s: f(s), (0.0, T), x0, method="DOP853", rtol=1e-13, atol=1e-14, dense_output=True)
-    ts = np.linspace(0.0, T, 4001)
-    # the library's base points come from its own propagation of an orbit that closes only to ~1e-9 and whose errors grow with the unstable multiplier:
-    # a base-point mismatch m changes the measured angle by ~ m / displacement
-    mismatch = float(np.max(np.abs(dense.sol(T) - x0))) + 2e-9
-    curve = np.array([dense.sol(t) for t in ts])
+        return res(evals=1, nontrivial=0, sample={"tag": "%s" % params, "outcome": "orbit rejected: %s" % type(exc).__name__})
+    viol = {}
+    ctx = _Ctx(mu, orbit)
+    T, dense, ts, curve = ctx.T, ctx.dense, ctx.ts, ctx.curve
     n = 0
     nontriv = 0
-    mx_angle = 0.0
-    ref_cache = {}
     for stable in (True, False):
         for direction in ("positive", "negative"):
             for disp in params["displacements"]:
@@ -97,74 +184,7 @@ def k_orbit(params):
                         continue
                     for tr in trajs:
                         n += 1
-                        times = np.asarray(tr.times, dtype=float)
-                        states = np.asarray(tr.states, dtype=float)
-                        seed = states[0]
-                        # time direction
-                        if stable and (np.any(times > 1e-15) or np.any(np.diff(times) >= 0)):
-                            V("times", "stable branch is not integrated backward (times %s ... %s) [%s]" % (times[:2].tolist(), times[-1:].tolist(), tag), times[:3])
-                        if (not stable) and (np.any(times < -1e-15) or np.any(np.diff(times) <= 0)):
-                            V("times", "unstable branch is not integrated forward (times %s ... %s) [%s]" % (times[:2].tolist(), times[-1:].tolist(), tag), times[:3])
-                        # energy along the retained trajectory (reference Jacobi constant)
-                        C = np.array([_jacobi(s, mu) for s in states[:: max(1, len(states) // 400)]])
-                        dC = float(np.max(np.abs(C - C[0])) / abs(C[0]))
-                        if dC > 1e-6:
-                            V("energy", "reference Jacobi constant varies by %.3e (relative) along a retained trajectory [%s]" % (dC, tag), dC, 1e-6)
-                        # base point.  The statement allows any point of the orbit as base, so the base is found by a 1-D search along the reference
-                        # orbit: tau* minimises the angle between (seed - x(tau)) and the reference Floquet direction, starting from the closest point
-                        # (moving the base along the orbit only changes the offset by a multiple of the flow direction).  Monodromies are cached per phase.
-                        d2 = np.sum((curve - seed) ** 2, axis=1)
-                        k = int(np.argmin(d2))
-                        tau = float(ts[k])
-
-                        def floquet(tq):
-                            key = round((tq % T) / T * 1e7)
-                            if key not in ref_cache:
-                                _, Mt = ref_stm(mu, dense.sol(tq % T), T)
-                                w_, V_ = np.linalg.eig(Mt)
-                                ref_cache[key] = (w_, V_)
-                            return ref_cache[key]
-                        ang = None
-                        for _it in range(2):
-                            w, Vv = floquet(tau)
-                            real = [i for i in range(6) if abs(w[i].imag) < 1e-8 * max(1.0, abs(w[i]))]
-                            cand = [i for i in real if (abs(w[i]) < 1 - 1e-3 if stable else abs(w[i]) > 1 + 1e-3)]
-                            if not cand:
-                                break
-                            i_sel = min(cand, key=lambda i: abs(w[i])) if stable else max(cand, key=lambda i: abs(w[i]))
-                            v = np.real(Vv[:, i_sel])
-                            v = v / np.linalg.norm(v)
-
-                            def angle_at(tq):
-                                o_ = seed - dense.sol(tq % T)
-                                return math.acos(min(1.0, abs(float(o_ @ v)) / max(float(np.linalg.norm(o_)), 1e-300)))
-                            from scipy.optimize import minimize_scalar
-                            win = 2.5 * T / 1999.0
-                            r = minimize_scalar(angle_at, bounds=(tau - win, tau + win), method="bounded", options={"xatol": 1e-12 * T})
-                            tau = float(r.x)
-                            ang = float(r.fun)
-                        if ang is None:
-                            continue
-                        base = dense.sol(tau % T)
-                        off = seed - base
-                        pn = float(np.linalg.norm(off[:3]))
-                        if abs(pn - disp) > 2e-3 * disp + 3 * mismatch:
-                            V("displacement", "seed is %.6e from its base point in position, configured displacement %.6e (phase tau/T=%.4f) [%s]" % (pn, disp, tau / T, tag), pn, disp)
-                        u = off / np.linalg.norm(off)
-                        nontriv += 1
-                        mx_angle = max(mx_angle, ang)
-                        if ang > 1e-3 + 5 * mismatch / disp:
-                            # angle to the *other* hyperbolic direction, for the diagnosis
-                            other = [i for i in real if (abs(w[i]) > 1 + 1e-3 if stable else abs(w[i]) < 1 - 1e-3)]
-                            a2 = None
-                            if other:
-                                v2 = np.real(Vv[:, other[0]]); v2 = v2 / np.linalg.norm(v2)
-                                a2 = math.acos(min(1.0, abs(float(u @ v2))))
-                            V("direction", "seed offset is %.4f rad (%.1f deg) away from the true %s Floquet direction at its base point (phase %.4f, multiplier %.4g; angle to the other hyperbolic direction %s) [%s]" % (
-                                ang, math.degrees(ang), "stable" if stable else "unstable", tau / T, abs(w[i_sel]), "%.4f" % a2 if a2 is not None else "n/a", tag), ang, 0.0)
-                    # mirror images: positive and negative seeds at the same phase
-            # (mirror test below uses both directions at the first displacement / method)
-            pass
+                        nontriv += ctx.check_traj(tr, stable, disp, V, tag)
     # mirror images
     for stable in (True, False):
         try:
@@ -176,7 +196,6 @@ def k_orbit(params):
             sn_ = np.array([np.asarray(t.states)[0] for t in mn.trajectories])
             if sp.shape == sn_.shape and len(sp):
                 mid = 0.5 * (sp + sn_)
-                from scipy.optimize import minimize_scalar
 
                 def dist_to_orbit(m):
                     k = int(np.argmin(np.sum((curve - m) ** 2, axis=1)))
@@ -189,11 +208,122 @@ def k_orbit(params):
                     viol.setdefault(k2, violation(k2, "positive and negative seeds are not mirror images about the orbit: midpoints are up to %.3e off the orbit [%s]" % (float(np.max(dmid)), tag0), float(np.max(dmid)), 0.0))
         except Exception:
             pass
-    return res(evals=n, nontrivial=nontriv, viol=list(viol.values()), stats={"max_angle_rad": mx_angle, "seeds_checked": nontriv},
-               sample={"tag": tag0, "seeds_checked": nontriv, "max_angle_rad": mx_angle})
+    return res(evals=n, nontrivial=nontriv, viol=list(viol.values()), stats={"max_angle_rad": ctx.mx_angle, "seeds_checked": nontriv},
+               sample={"tag": tag0, "seeds_checked": nontriv, "max_angle_rad": ctx.mx_angle})
 
 
-KINDS = {"orbit": k_orbit}
+ARGSETS = {"A": dict(step=0.25, displacement=1e-6), "B": dict(step=0.25, displacement=1e-4), "C": dict(step=0.125, displacement=1e-6)}
+
+
+def k_history(params):
+    """(i) every ordered pair of compute() calls with argument sets {A, B, C} on one Manifold object: the seeds present afterwards must satisfy
+    the statement for the arguments of the *last* call; (ii) the orbit is re-corrected in place (loose, then tight tolerance) between two
+    Manifold objects: the second manifold's seeds must belong to the orbit as it is now"""
+    import dataclasses
+    try:
+        system, mu, orbit, tag0 = _make(params)
+        orbit.correct()
+        orbit.propagate(steps=1000)
+    except Exception as exc:
+        return res(evals=1, nontrivial=0, sample={"tag": "%s" % params, "outcome": "orbit rejected: %s" % type(exc).__name__})
+    viol = {}
+    n = nt = 0
+    ctx = _Ctx(mu, orbit)
+    for stable in (True, False):
+        for first in sorted(ARGSETS):
+            for second in sorted(ARGSETS):
+                man = _L["Manifold"](orbit, stable=stable, direction="positive")
+                tag = "%s stable=%s: compute(%s) then compute(%s) on the same Manifold object" % (tag0, stable, ARGSETS[first], ARGSETS[second])
+
+                def V(key, what, obs=None, exp=None, _s=stable):
+                    k2 = "history/same_object/%s/%s" % (key, "stable" if _s else "unstable")
+                    viol.setdefault(k2, violation(k2, what, obs, exp))
+                try:
+                    man.compute(integration_fraction=0.05, dt=1e-2, show_progress=False, **ARGSETS[first])
+                    man.compute(integration_fraction=0.05, dt=1e-2, show_progress=False, **ARGSETS[second])
+                    trajs = man.trajectories
+                except Exception as exc:
+                    V("raises", "compute raised %s: %s [%s]" % (type(exc).__name__, str(exc)[:120], tag))
+                    continue
+                want = int(round(1.0 / ARGSETS[second]["step"]))
+                if len(trajs) != want:
+                    V("count", "%d trajectories present, the last call asked for %d phase fractions [%s]" % (len(trajs), want, tag), len(trajs), want)
+                for tr in trajs:
+                    n += 1
+                    nt += ctx.check_traj(tr, stable, ARGSETS[second]["displacement"], V, tag)
+    # (ii) orbit changed in place between two manifolds
+    try:
+        system, mu, orbit2, tag0 = _make(params)
+        o = orbit2.correction_options
+        loose = dataclasses.replace(o, base=dataclasses.replace(o.base, convergence=dataclasses.replace(o.base.convergence, tol=1e-4)))
+        orbit2.correct(options=loose)
+        x_loose = np.array(orbit2.initial_state, dtype=float)
+        for stable in (True, False):
+            m1 = _L["Manifold"](orbit2, stable=stable, direction="positive")
+            m1.compute(integration_fraction=0.05, dt=1e-2, show_progress=False, **ARGSETS["A"])
+        orbit2.correct()
+        x_tight = np.array(orbit2.initial_state, dtype=float)
+        moved = float(np.max(np.abs(x_tight - x_loose)))
+        ctx2 = _Ctx(mu, orbit2)
+        for stable in (True, False):
+            m2 = _L["Manifold"](orbit2, stable=stable, direction="positive")
+            m2.compute(integration_fraction=0.05, dt=1e-2, show_progress=False, **ARGSETS["A"])
+            tag = "%s stable=%s: manifold of an orbit that was re-corrected in place (state moved by %.2e) after an earlier manifold of it had been computed" % (tag0, stable, moved)
+
+            def V(key, what, obs=None, exp=None, _s=stable):
+                k2 = "history/orbit_changed/%s/%s" % (key, "stable" if _s else "unstable")
+                viol.setdefault(k2, violation(k2, what, obs, exp))
+            for tr in m2.trajectories:
+                n += 1
+                got = ctx2.check_traj(tr, stable, ARGSETS["A"]["displacement"], V, tag)
+                nt += got if moved > 1e-8 else 0
+    except Exception as exc:
+        viol.setdefault("history/orbit_changed/raises", violation("history/orbit_changed/raises", "%s: %s [%s]" % (type(exc).__name__, str(exc)[:160], params)))
+    return res(evals=n, nontrivial=nt, viol=list(viol.values()), sample={"tag": tag0, "seeds_checked": nt})
+
+
+def k_energy_filter(params):
+    """coarse fixed-step integration with tolerances around the actual drift: whatever is retained must respect the configured tolerance (both signs)"""
+    try:
+        system, mu, orbit, tag0 = _make(params)
+        orbit.correct()
+        orbit.propagate(steps=1000)
+    except Exception as exc:
+        return res(evals=1, nontrivial=0, sample={"tag": "%s" % params, "outcome": "orbit rejected: %s" % type(exc).__name__})
+    viol = {}
+    n = 0
+    kept = {}
+    total = int(round(1.0 / params["step"]))
+    for stable in (True, False):
+        for direction in ("positive", "negative"):
+            for tol in params["tols"]:
+                man = _L["Manifold"](orbit, stable=stable, direction=direction)
+                tag = "%s stable=%s direction=%s method=fixed order=%d dt=%g energy_tol=%g" % (tag0, stable, direction, params["order"], params["dt"], tol)
+
+                def V(key, what, obs=None, exp=None, _s=stable):
+                    k2 = "energy_filter/%s/%s" % (key, "stable" if _s else "unstable")
+                    viol.setdefault(k2, violation(k2, what, obs, exp))
+                try:
+                    man.compute(step=params["step"], integration_fraction=params["int_frac"], displacement=1e-6, method="fixed", order=params["order"], dt=params["dt"], energy_tol=tol, show_progress=False)
+                    trajs = man.trajectories
+                except Exception as exc:
+                    V("raises", "compute raised %s: %s [%s]" % (type(exc).__name__, str(exc)[:120], tag))
+                    continue
+                kept[tol] = kept.get(tol, 0) + len(trajs)
+                for tr in trajs:
+                    n += 1
+                    states = np.asarray(tr.states, dtype=float)
+                    C = np.array([_jacobi(s_, mu) for s_ in states])
+                    dev = (C - C[0]) / abs(C[0])
+                    if float(np.max(np.abs(dev))) > tol * (1 + 1e-6) + 1e-13:
+                        V("retained_beyond_tolerance", "a retained trajectory deviates by %+.3e / %+.3e (relative Jacobi constant, min / max) from its seed value; configured energy_tol %.1e [%s]" % (
+                            float(np.min(dev)), float(np.max(dev)), tol, tag), float(np.max(np.abs(dev))), tol)
+    partial = sum(1 for t, k in kept.items() if 0 < k < 4 * total)
+    return res(evals=n, nontrivial=n if partial else 0, viol=list(viol.values()), stats={"tolerances_that_filter_some_but_not_all": partial},
+               sample={"tag": tag0, "retained_per_tolerance": {"%g" % t: k for t, k in kept.items()}, "branches_per_tolerance": 4 * total})
+
+
+KINDS = {"orbit": k_orbit, "history": k_history, "energy_filter": k_energy_filter}
 
 
 def cases(tier, seed):
@@ -206,4 +336,11 @@ def cases(tier, seed):
                 for amp in amps:
                     out.append(("orbit", {"system": sysn, "family": fam, "point": Ln, "amp": amp, "step": 0.125 if tier == "quick" else 0.0625, "int_frac": 0.2,
                                           "displacements": [1e-6, 1e-4], "methods": [["adaptive", 8]] if tier == "quick" else [["adaptive", 8], ["fixed", 8]]}))
+    hist = [("halo_s", 1, 0.2), ("lyapunov", 2, 0.03)] if tier == "quick" else [("halo_s", 1, 0.2), ("halo_n", 2, 0.05), ("lyapunov", 1, 0.03), ("lyapunov", 2, 0.03)]
+    for fam, Ln, amp in hist:
+        out.append(("history", {"system": ["earth", "moon"], "family": fam, "point": Ln, "amp": amp}))
+    for fam, Ln, amp in hist:
+        for order, dt in ((4, 0.02), (4, 0.01)) if tier == "quick" else ((4, 0.02), (4, 0.01), (6, 0.04)):
+            out.append(("energy_filter", {"system": ["earth", "moon"], "family": fam, "point": Ln, "amp": amp, "order": order, "dt": dt, "step": 0.125, "int_frac": 0.4,
+                                          "tols": [1e-8, 3e-9, 1e-9, 7e-10, 5e-10, 3e-10, 2e-10, 1.5e-10, 1e-10, 5e-11, 1e-11]}))
     return out
